@@ -659,7 +659,13 @@ class BasePlaceholderManager(MpfController):
             self._eval_methods[ast.Constant] = self._eval_constant
 
     def _eval_tuple(self, node, variables, subscribe):
-        return tuple([self._eval(x, variables, subscribe) for x in node.elts])
+        values = []
+        subscription = []
+        for element in node.elts:
+            value, new_subscription = self._eval(element, variables, subscribe)
+            values.append(value)
+            subscription += new_subscription
+        return tuple(values), subscription
 
     @staticmethod
     def _parse_template(template_str):
@@ -688,11 +694,11 @@ class BasePlaceholderManager(MpfController):
 
     def _eval_if(self, node, variables, subscribe):
         value, subscription = self._eval(node.test, variables, subscribe)
-        if value:
-            ret_value, ret_subscription = self._eval(node.body, variables, subscribe)
-            return ret_value, subscription + ret_subscription
-
-        ret_value, ret_subscription = self._eval(node.orelse, variables, subscribe)
+        try:
+            ret_value, ret_subscription = self._eval(node.body if value else node.orelse, variables, subscribe)
+        except TemplateEvalError as e:
+            # keep listening to the variables of the test, it decides which branch is evaluated
+            raise TemplateEvalError(subscription + e.subscriptions)
         return ret_value, subscription + ret_subscription
 
     def _eval_bin_op(self, node, variables, subscribe):
@@ -706,7 +712,10 @@ class BasePlaceholderManager(MpfController):
 
     def _eval_unary_op(self, node, variables, subscribe):
         value, subscription = self._eval(node.operand, variables, subscribe)
-        return OPERATORS[type(node.op)](value), subscription
+        try:
+            return OPERATORS[type(node.op)](value), subscription
+        except TypeError:
+            raise TemplateEvalError(subscription)
 
     def _eval_compare(self, node, variables, subscribe):
         if len(node.ops) > 1:
@@ -753,21 +762,19 @@ class BasePlaceholderManager(MpfController):
 
     def _eval_subscript(self, node, variables, subscribe):
         value, subscription = self._eval(node.value, variables, subscribe)
-        if isinstance(node.slice, ast.Constant):
-            return value[node.slice.value], subscription
-        if isinstance(node.slice, ast.Index):
-            slice_value, slice_subscript = self._eval(node.slice.value, variables, subscribe)
-            try:
-                return value[slice_value], subscription + slice_subscript
-            except ValueError:
-                raise TemplateEvalError(subscription + slice_subscript)
         if isinstance(node.slice, ast.Slice):
             lower, lower_subscription = self._eval(node.slice.lower, variables, subscribe)
             upper, upper_subscription = self._eval(node.slice.upper, variables, subscribe)
             step, step_subscription = self._eval(node.slice.step, variables, subscribe)
             return value[lower:upper:step], subscription + lower_subscription + upper_subscription + step_subscription
 
-        raise TypeError(type(node.slice))
+        # Python < 3.9 wraps the index expression in ast.Index. Later versions use the expression itself.
+        index_node = node.slice.value if isinstance(node.slice, ast.Index) else node.slice
+        slice_value, slice_subscript = self._eval(index_node, variables, subscribe)
+        try:
+            return value[slice_value], subscription + slice_subscript
+        except (ValueError, TypeError):
+            raise TemplateEvalError(subscription + slice_subscript)
 
     def _eval_name(self, node, variables, subscribe):
         if node.id in ("true", "false"):
